@@ -13,6 +13,12 @@
   <prog> = <nlocals> <block>; <block> = <n> <stmt>*n
   <stmt> = if C B B | while C B | repeat B C | ret <m> C*m | local C | assign <k> T*k <m> C*m ;  T = l<r> | g<id>
   C      = T | F | N | n<int> | s<ascii> | l<r> | g<id> | not C | and C C | or C C | lt|gt|le|ge|eq|ne C C
+         | @add|@sub|@mul|@div|@mod|@pow C C | @unm C | @len C | @cat C C
+
+  Numbers are IEEE doubles by bit pattern (`F64`): the instance of the number structure with which the compile
+  model folds constants and the MiniVM / the reference semantics compute.  `+ - * /` are the hardware operations,
+  `%` is `luaModulo` over an EXACT `math.Mod`, `^` is Go's `math.Pow` transcribed for the integer exponents
+  0…3 that the generators produce (libm `pow` otherwise) — the trusted number base of DESIGN §4.5.
 -/
 import GLua.Engines.Common
 import GLua.Model.CompileStmt
@@ -22,10 +28,90 @@ import GLua.Spec.Num
 namespace GLua.Eng.C01MEng
 open GLua GLua.Eng GLua.Compile GLua.MiniVM
 
+/-! ### the concrete number structure -/
+
+structure F64 where
+  bits : UInt64
+deriving DecidableEq
+
+def F64.f (x : F64) : Float := Float.ofBits x.bits
+def F64.of (f : Float) : F64 := ⟨f.toBits⟩
+
+def nanF : Float := 0.0 / 0.0
+
+/-- a finite double as ±mant · 2^exp with an integer mantissa. -/
+def decodeFinite (f : Float) : Bool × Nat × Int :=
+  let b := f.toBits.toNat
+  let sign := decide (b / 2 ^ 63 = 1)
+  let e : Nat := b / 2 ^ 52 % 2048
+  let m : Nat := b % 2 ^ 52
+  if e = 0 then (sign, m, -1074) else (sign, m + 2 ^ 52, Int.ofNat e - 1075)
+
+/-- `math.Mod` (C `fmod`): exact; the result has the sign of x. -/
+def fmodExact (x y : Float) : Float :=
+  if x.isNaN || y.isNaN || x.isInf || y == 0.0 then nanF
+  else if y.isInf then x
+  else
+    let (sx, mx, ex) := decodeFinite x
+    let (_, my, ey) := decodeFinite y
+    let e := min ex ey
+    let a := mx * 2 ^ (ex - e).toNat
+    let b := my * 2 ^ (ey - e).toNat
+    let v := (Float.ofNat (a % b)).scaleB e
+    if sx then -v else v
+
+/-- `luaModulo` of vm.go. -/
+def luaModuloF (x y : Float) : Float :=
+  let v := fmodExact x y
+  if (y > 0.0 && v < 0.0) || (y < 0.0 && v > 0.0) then v + y else v
+
+/-- the square-and-multiply loop of Go's `math.Pow` for a finite non-zero x and an integer exponent. -/
+def goPowLoop : Nat → Nat → Float → Int → Float → Int → Float × Int
+  | 0, _, _, _, a1, ae => (a1, ae)
+  | fuel + 1, i, x1, xe, a1, ae =>
+    if i = 0 then (a1, ae)
+    else if xe < -4096 || 4096 < xe then (a1, ae + xe)
+    else
+      let (a1, ae) := if i % 2 = 1 then (a1 * x1, ae + xe) else (a1, ae)
+      let x1 := x1 * x1
+      let xe := xe * 2
+      let (x1, xe) := if x1 < 0.5 then (x1 + x1, xe - 1) else (x1, xe)
+      goPowLoop fuel (i / 2) x1 xe a1 ae
+
+def powF (x y : Float) : Float :=
+  if y == 0.0 || x == 1.0 then 1.0
+  else if y == 1.0 then x
+  else if x.isNaN || y.isNaN then nanF
+  else if y == 2.0 || y == 3.0 then
+    if x.isFinite && x != 0.0 then
+      let (x1, xe) := x.frExp
+      let (a1, ae) := goPowLoop 8 (if y == 2.0 then 2 else 3) x1 xe 1.0 0
+      a1.scaleB ae
+    else if y == 2.0 then x * x else x * (x * x)
+  else Float.pow x y
+
+@[reducible] instance f64Num : NumStruct where
+  N := F64
+  deq := inferInstance
+  add a b := .of (a.f + b.f)
+  sub a b := .of (a.f - b.f)
+  mul a b := .of (a.f * b.f)
+  div a b := .of (a.f / b.f)
+  mod a b := .of (luaModuloF a.f b.f)
+  pow a b := .of (powF a.f b.f)
+  neg a := .of (-a.f)
+  lit n := .of (Float.ofInt n)
+  isNaN a := a.f.isNaN
+
 /-! ### parsing -/
 
 def relOf : String → Option RelOp
   | "lt" => some .lt | "gt" => some .gt | "le" => some .le | "ge" => some .ge | "eq" => some .eq | "ne" => some .ne
+  | _ => none
+
+def arithOf : String → Option ArithOp
+  | "@add" => some .add | "@sub" => some .sub | "@mul" => some .mul | "@div" => some .div
+  | "@mod" => some .mod | "@pow" => some .pow
   | _ => none
 
 def parseCond : Nat → List String → Option (Cond × List String)
@@ -34,6 +120,18 @@ def parseCond : Nat → List String → Option (Cond × List String)
   | fuel + 1, t :: ts =>
     if t = "T" then some (.tru, ts) else if t = "F" then some (.fls, ts) else if t = "N" then some (.nil, ts)
     else if t = "not" then (parseCond fuel ts).map fun (c, r) => (.not c, r)
+    else if t = "@unm" then (parseCond fuel ts).map fun (c, r) => (.unm c, r)
+    else if t = "@len" then (parseCond fuel ts).map fun (c, r) => (.len c, r)
+    else if t = "@cat" ∨ (arithOf t).isSome then
+      match parseCond fuel ts with
+      | none => none
+      | some (l, r1) =>
+        match parseCond fuel r1 with
+        | none => none
+        | some (r, r2) =>
+          match arithOf t with
+          | some op => some (.arith op l r, r2)
+          | none => some (.concat l r, r2)
     else if t = "and" ∨ t = "or" then
       match parseCond fuel ts with
       | none => none
@@ -151,33 +249,94 @@ def parseProg (ts : List String) : Option (Nat × Block × List String) :=
 
 /-! ### the concrete value domain of the run tie -/
 
-def truthyO : OVal → Bool
-  | none => false
-  | some (.bool false) => false
+inductive RV where
+  | nil
+  | bool (b : Bool)
+  | num (x : F64)
+  | str (hex : String)
+deriving DecidableEq
+
+def RV.show : RV → String
+  | .nil => "nil"
+  | .bool b => if b then "T" else "F"
+  | .num x => Sem.tokOfFloat x.f
+  | .str h => "s" ++ h
+
+def parseRV (t : String) : Option RV :=
+  if t = "nil" then some .nil
+  else if t = "T" then some (.bool true)
+  else if t = "F" then some (.bool false)
+  else if t.front = 's' then some (.str (t.drop 1).toString)
+  else (Sem.floatOfTok t).map fun f => .num (.of f)
+
+def truthyR : RV → Bool
+  | .nil => false
+  | .bool false => false
   | _ => true
 
-def ltO : OVal → OVal → Option Bool
-  | some (.int a), some (.int b) => some (decide (a < b))
-  | some (.str a), some (.str b) => some (decide (a < b))       -- hex of bytes: same order as the bytes
+def eqR : RV → RV → Option Bool
+  | .num a, .num b => some (a.f == b.f)
+  | a, b => some (decide (a = b))
+
+def ltR : RV → RV → Option Bool
+  | .num a, .num b => some (a.f < b.f)
+  | .str a, .str b => some (decide (a < b))       -- hex of bytes: same order as the bytes
   | _, _ => none
-def leO : OVal → OVal → Option Bool
-  | some (.int a), some (.int b) => some (decide (a ≤ b))
-  | some (.str a), some (.str b) => some (decide (a ≤ b))
+def leR : RV → RV → Option Bool
+  | .num a, .num b => some (a.f ≤ b.f)
+  | .str a, .str b => some (decide (a ≤ b))
   | _, _ => none
 
-def dom : Dom OVal where
-  nilV := none
-  trueV := some (.bool true)
-  falseV := some (.bool false)
-  truthy := truthyO
-  num := fun n => some (.int n)
-  str := fun s => some (.str (Sem.hexOfAscii s))
-  eq := fun a b => some (decide (a = b))
-  lt := ltO
-  le := leO
+/-- §2.2.1: a string is converted to a number by the rules of the lexer (here: `strtod`). -/
+def toNumR : RV → Option F64
+  | .num x => some x
+  | .str h => (Sem.strToNum? h).map .of
+  | _ => none
+
+def arithR (op : ArithOp) (a b : RV) : Option RV :=
+  match toNumR a, toNumR b with
+  | some x, some y => some (.num (NumStruct.apply op x y))
+  | _, _ => none
+
+def unmR (a : RV) : Option RV := (toNumR a).map fun x => .num (NumStruct.neg x)
+
+def lenR : RV → Option RV
+  | .str h => some (.num (.of (Float.ofNat (Sem.strLen h))))
+  | _ => none
+
+/-- number → string for concatenation: only integral values below 2^53 (plain decimal digits; -0 prints as 0 like
+    every integral value does through int64).  The harness never sends a run in which any other number is
+    concatenated (it detects them with an instrumented twin of the program), so `none` here is never compared. -/
+def strOfR : RV → Option String
+  | .str h => some h
+  | .num x =>
+    match Sem.floatExactInt? x.f with
+    | some i => if i.natAbs < 2 ^ 53 then some (Sem.hexOfAscii (toString i)) else none
+    | none => none
+  | _ => none
+
+def concatR (a b : RV) : Option RV :=
+  match strOfR a, strOfR b with
+  | some x, some y => some (.str (x ++ y))
+  | _, _ => none
+
+def dom : Dom RV where
+  nilV := .nil
+  trueV := .bool true
+  falseV := .bool false
+  truthy := truthyR
+  num := .num
+  str := fun s => .str (Sem.hexOfAscii s)
+  eq := eqR
+  lt := ltR
+  le := leR
+  arith := arithR
+  unm := unmR
+  len := lenR
+  concat := concatR
 
 def konstTok : Konst → String
-  | .num n => "i" ++ toString n
+  | .num x => Sem.tokOfFloat x.f
   | .str s => "s" ++ Sem.hexOfAscii s
 
 /-! ### requests -/
@@ -204,12 +363,12 @@ def handleCode (args impl : List String) : Verdict :=
       let expected := [toString nregs, "C"] ++ words ++ ["K"] ++ consts.map konstTok
       { model := cmpModel (" ".intercalate expected) impl }
 
-def listToFn (l : List OVal) : Nat → OVal := fun i => (l[i]?).getD none
+def listToFn (l : List RV) : Nat → RV := fun i => (l[i]?).getD .nil
 
-def parseVals (ts : List String) : Option (List OVal) := ts.mapM parseVal
+def parseVals (ts : List String) : Option (List RV) := ts.mapM parseRV
 
-def showVals (vs : List OVal) : String :=
-  if vs.isEmpty then "none" else " ".intercalate ("ret" :: vs.map OVal.show)
+def showVals (vs : List RV) : String :=
+  if vs.isEmpty then "none" else " ".intercalate ("ret" :: vs.map RV.show)
 
 def handleRun (args impl : List String) : Verdict :=
   let (p, r1) := splitOn ";" args
@@ -229,7 +388,7 @@ def handleRun (args impl : List String) : Verdict :=
       match modelCode n b with
       | .error e => "compile-error " ++ e
       | .ok (code, _, consts) =>
-        let s0 : VM OVal := { pc := if n = 0 then 0 else 1, regs := listToFn lv, globs := listToFn gv }
+        let s0 : VM RV := { pc := if n = 0 then 0 else 1, regs := listToFn lv, globs := listToFn gv }
         match run dom code consts 100000 s0 with
         | none => "fuel"
         | some (.halt s) =>
